@@ -3,6 +3,8 @@
 package main
 
 import (
+	"bytes"
+	"compress/gzip"
 	"encoding/base64"
 	"errors"
 	"fmt"
@@ -28,9 +30,37 @@ import (
 
 // answerSpec scripts one IdP answer.
 type answerSpec struct {
-	Transport int    // 0 respond; 1 close the connection without a response; 2 body shorter than Content-Length
-	Status    int    // HTTP status when Transport == 0
-	Raw       []byte // body bytes
+	Transport int         // 0 respond; 1 close the connection without a response; 2 body shorter than Content-Length
+	Status    int         // HTTP status when Transport == 0
+	Raw       []byte      // body bytes
+	Headers   [][2]string // extra response headers, in this order, duplicates allowed
+	Wire      int         // how the answer is put on the wire, see the wire* constants
+}
+
+const (
+	wireNormal      = iota // net/http writes it: Content-Type application/json unless Headers say otherwise
+	wireNoCT               // no Content-Type header at all
+	wireGzip               // Content-Encoding: gzip, body really gzipped
+	wireGzipLie            // Content-Encoding: gzip, body not gzipped
+	wireCLShort            // Content-Length smaller than the body
+	wireCLLong             // Content-Length larger than the body
+	wireChunked            // Transfer-Encoding: chunked, small chunks, trailers
+	wireChunkedBad         // Transfer-Encoding: chunked with a malformed chunk size
+	wireDupCL              // two different Content-Length headers
+	wireHugeHeader         // a 60 kB header line
+	wireCount
+)
+
+var wireName = []string{"normal", "no-content-type", "gzip", "gzip-header-plain-body", "content-length-short", "content-length-long",
+	"chunked+trailers", "chunked-malformed", "duplicate-content-length", "huge-header"}
+
+// effective is what a stock Go HTTP client makes of an answer (the oracle for the HTTP transport:
+// transparent gzip, Content-Length / chunking, header parsing): a failure, or status and body.
+type effective struct {
+	Failed bool
+	Status int
+	Body   []byte
+	Detail string
 }
 
 // scenario is ONE login: the code presented, what the IdP answers for that code at the token
@@ -38,6 +68,8 @@ type answerSpec struct {
 type scenario struct {
 	Code        string
 	Tok, UI     answerSpec
+	TokEff      effective // filled by world.prepare: the answers as a stock Go client reads them
+	UIEff       effective
 	TokIntended *tokClass  // class the body was rendered from (nil when the bytes were mangled afterwards)
 	UIIntended  *userClass // likewise
 	ErrParam    bool       // the callback request carries error=...
@@ -134,6 +166,7 @@ type fakeIdP struct {
 	tokHit     map[string]bool
 	uiHit      map[string]bool
 	unexpected []string
+	refs       map[string]answerSpec // answers served under /_ref/<id> for the reference fetch
 	srv        *httptest.Server
 }
 
@@ -178,32 +211,106 @@ func (f *fakeIdP) serve(rw http.ResponseWriter, req *http.Request) {
 			f.unexpected = append(f.unexpected, "userinfo endpoint: unknown bearer "+fmt.Sprintf("%q", bearer))
 			a = answerSpec{Status: 401, Raw: []byte(`{"error":"invalid_token"}`)}
 		}
+	case strings.HasPrefix(path, "/_ref/"):
+		io.Copy(io.Discard, req.Body)
+		a = f.refs[strings.TrimPrefix(path, "/_ref/")]
 	default:
 		f.unexpected = append(f.unexpected, "unknown path "+req.URL.Path)
 		a = answerSpec{Status: 418}
 	}
 	f.mu.Unlock()
-	switch a.Transport {
-	case 1, 2:
-		hj, ok := rw.(http.Hijacker)
-		if !ok {
-			panic("fake IdP: cannot hijack")
+	respond(rw, a)
+}
+
+// respond puts an answer on the wire. Everything but the plain cases is written by hand on the
+// hijacked connection (always with "Connection: close", so that no later request can meet a
+// half-dead keep-alive connection).
+func respond(rw http.ResponseWriter, a answerSpec) {
+	if a.Transport == 0 && (a.Wire == wireNormal || a.Wire == wireNoCT) {
+		h := rw.Header()
+		h.Set("Content-Type", "application/json")
+		if a.Wire == wireNoCT {
+			h["Content-Type"] = nil
 		}
-		conn, buf, err := hj.Hijack()
-		if err != nil {
-			panic(err)
+		for _, kv := range a.Headers {
+			if strings.EqualFold(kv[0], "Content-Type") {
+				h.Set("Content-Type", kv[1])
+			} else {
+				h.Add(kv[0], kv[1])
+			}
 		}
-		if a.Transport == 2 {
-			fmt.Fprintf(buf, "HTTP/1.1 200 OK\r\nContent-Type: application/json\r\nContent-Length: %d\r\n\r\n", len(a.Raw)+64)
-			buf.Write(a.Raw)
-			buf.Flush()
-		}
-		conn.Close()
+		rw.WriteHeader(a.Status)
+		rw.Write(a.Raw)
 		return
 	}
-	rw.Header().Set("Content-Type", "application/json")
-	rw.WriteHeader(a.Status)
-	rw.Write(a.Raw)
+	hj, ok := rw.(http.Hijacker)
+	if !ok {
+		panic("fake IdP: cannot hijack")
+	}
+	conn, buf, err := hj.Hijack()
+	if err != nil {
+		panic(err)
+	}
+	defer conn.Close()
+	if a.Transport == 1 {
+		return
+	}
+	if a.Transport == 2 {
+		fmt.Fprintf(buf, "HTTP/1.1 200 OK\r\nContent-Type: application/json\r\nContent-Length: %d\r\n\r\n", len(a.Raw)+64)
+		buf.Write(a.Raw)
+		buf.Flush()
+		return
+	}
+	body := a.Raw
+	fmt.Fprintf(buf, "HTTP/1.1 %d %s\r\nContent-Type: application/json\r\nConnection: close\r\n", a.Status, http.StatusText(a.Status))
+	for _, kv := range a.Headers {
+		fmt.Fprintf(buf, "%s: %s\r\n", kv[0], kv[1])
+	}
+	switch a.Wire {
+	case wireGzip:
+		var zb bytes.Buffer
+		zw := gzip.NewWriter(&zb)
+		zw.Write(body)
+		zw.Close()
+		body = zb.Bytes()
+		fmt.Fprintf(buf, "Content-Encoding: gzip\r\nContent-Length: %d\r\n\r\n", len(body))
+		buf.Write(body)
+	case wireGzipLie:
+		fmt.Fprintf(buf, "Content-Encoding: gzip\r\nContent-Length: %d\r\n\r\n", len(body))
+		buf.Write(body)
+	case wireCLShort:
+		fmt.Fprintf(buf, "Content-Length: %d\r\n\r\n", len(body)/2)
+		buf.Write(body)
+	case wireCLLong:
+		fmt.Fprintf(buf, "Content-Length: %d\r\n\r\n", len(body)+17)
+		buf.Write(body)
+	case wireChunked:
+		fmt.Fprintf(buf, "Transfer-Encoding: chunked\r\nTrailer: X-Rate-Limit-Limit, X-Checksum\r\n\r\n")
+		for i := 0; i < len(body); i += 7 {
+			end := i + 7
+			if end > len(body) {
+				end = len(body)
+			}
+			fmt.Fprintf(buf, "%x;ext=1\r\n", end-i)
+			buf.Write(body[i:end])
+			buf.WriteString("\r\n")
+		}
+		buf.WriteString("0\r\nX-Rate-Limit-Limit: 0\r\nX-Checksum: abc\r\n\r\n")
+	case wireChunkedBad:
+		fmt.Fprintf(buf, "Transfer-Encoding: chunked\r\n\r\nzz\r\n")
+		buf.Write(body)
+		buf.WriteString("\r\n0\r\n\r\n")
+	case wireDupCL:
+		fmt.Fprintf(buf, "Content-Length: %d\r\nContent-Length: %d\r\n\r\n", len(body), len(body)+1)
+		buf.Write(body)
+	case wireHugeHeader:
+		fmt.Fprintf(buf, "X-Rate-Limit-Limit: %s\r\nContent-Length: %d\r\n\r\n", strings.Repeat("9", 60000), len(body))
+		buf.Write(body)
+	default:
+		fmt.Fprintf(buf, "Content-Length: %d\r\n\r\n", len(body))
+		buf.Write(body)
+	}
+	buf.Flush()
 }
 
 // ---------------------------------------------------------------------------------------------
@@ -307,6 +414,8 @@ type world struct {
 	authSrv           *httptest.Server
 	cipher            aead.Cipher
 	client            *http.Client
+	refClient         *http.Client // a stock Go client, for the reference fetch
+	refN              int
 	selfCheckFailures int
 }
 
@@ -373,6 +482,7 @@ func newWorld() *world {
 	w.authSrv = httptest.NewUnstartedServer(http.TimeoutHandler(mux, 280*time.Second, ""))
 	w.authSrv.Config.ErrorLog = log.New(io.Discard, "", 0) // "http: panic serving ..." lines
 	w.authSrv.Start()
+	w.refClient = &http.Client{Timeout: 300 * time.Second, Transport: &http.Transport{DisableKeepAlives: true, Proxy: nil}}
 	w.client = &http.Client{
 		Timeout: 300 * time.Second,
 		// keep-alive: after a dropped connection net/http may retry the GET once on a fresh connection; the verdict (dropped) is the same
@@ -380,6 +490,40 @@ func newWorld() *world {
 		CheckRedirect: func(*http.Request, []*http.Request) error { return http.ErrUseLastResponse },
 	}
 	return w
+}
+
+// reference fetches an answer with a STOCK Go client (default http.Transport, i.e. transparent
+// gzip like the providers' own client) and the method the provider will use: the oracle for what
+// the HTTP layer makes of status line, headers and body framing.
+func (w *world) reference(method string, a answerSpec) effective {
+	w.refN++
+	id := fmt.Sprint(w.refN)
+	w.idp.mu.Lock()
+	w.idp.refs = map[string]answerSpec{id: a}
+	w.idp.mu.Unlock()
+	var body io.Reader
+	if method == "POST" {
+		body = strings.NewReader("grant_type=authorization_code&code=x")
+	}
+	req, err := http.NewRequest(method, w.idp.srv.URL+"/_ref/"+id, body)
+	c.Must(err)
+	req.Header.Set("Content-Type", "application/x-www-form-urlencoded")
+	resp, err := w.refClient.Do(req)
+	if err != nil {
+		return effective{Failed: true, Detail: err.Error()}
+	}
+	b, err := io.ReadAll(resp.Body)
+	resp.Body.Close()
+	if err != nil {
+		return effective{Failed: true, Detail: "reading the body: " + err.Error()}
+	}
+	return effective{Status: resp.StatusCode, Body: b}
+}
+
+// prepare fills in the effective answers of a login.
+func (w *world) prepare(sc *scenario) {
+	sc.TokEff = w.reference("POST", sc.Tok)
+	sc.UIEff = w.reference("GET", sc.UI)
 }
 
 func orPath(u *url.URL, dflt string) string {
@@ -516,20 +660,20 @@ func (w *world) callback(slug string, sc scenario) cbObs {
 
 var provCoq = map[string]string{"google": "Google", "okta": "Okta", "cognito": "Cognito"}
 
-func answerCoq(a answerSpec, class string) string {
-	if a.Transport != 0 {
+func answerCoq(e effective, class string) string {
+	if e.Failed {
 		return "TransportErr"
 	}
-	return fmt.Sprintf("(Resp %d %s)", a.Status, class)
+	return fmt.Sprintf("(Resp %d %s)", e.Status, class)
 }
 
 // tokenKey is the access token the IdP issued in this login's token answer, as the relying party
 // will read it (Go's decoding of the very bytes served), or "" if there is none to present.
 func tokenKey(sc scenario) string {
-	if sc.Tok.Transport != 0 || sc.Tok.Status != 200 {
+	if sc.TokEff.Failed || sc.TokEff.Status != 200 {
 		return ""
 	}
-	tc := probeTok(sc.Tok.Raw)
+	tc := probeTok(sc.TokEff.Body)
 	if !tc.JSON || tc.Access.Kind != "str" {
 		return ""
 	}
@@ -573,6 +717,11 @@ func (w *world) run(g group) []c.Case {
 			order[i] = i
 		}
 	}
+	for i := range g.Members {
+		if g.Members[i].TokEff.Status == 0 && !g.Members[i].TokEff.Failed {
+			w.prepare(&g.Members[i])
+		}
+	}
 	tokBy, uiBy := map[string]answerSpec{}, map[string]answerSpec{}
 	keys := make([]string, k)
 	for i, m := range g.Members {
@@ -600,8 +749,8 @@ func (w *world) run(g group) []c.Case {
 
 	var out []c.Case
 	for i, sc := range g.Members {
-		tc := probeTok(sc.Tok.Raw)
-		uc := probeUser(sc.UI.Raw)
+		tc := probeTok(sc.TokEff.Body)
+		uc := probeUser(sc.UIEff.Body)
 		if sc.TokIntended != nil && !sameTok(*sc.TokIntended, tc) {
 			w.selfCheckFailures++
 			if w.selfCheckFailures <= 3 {
@@ -620,15 +769,19 @@ func (w *world) run(g group) []c.Case {
 			later = fmt.Sprintf("(Some %d)", laterStatus[sc.Later])
 		}
 		tag := g.Cfg*10 + k
+		if len(sc.Tok.Headers) > 0 || len(sc.UI.Headers) > 0 || sc.Tok.Wire != 0 || sc.UI.Wire != 0 {
+			tag += 1000 // response headers / framing varied
+		}
 		coq := fmt.Sprintf("Case %d %s %s %s %s %s %s %s %s (Some (%s, %s, %s))",
-			tag, provCoq[cfg.Type], S(sc.Code), answerCoq(sc.Tok, tc.coq()), answerCoq(sc.UI, uc.coq()), tab,
+			tag, provCoq[cfg.Type], S(sc.Code), answerCoq(sc.TokEff, tc.coq()), answerCoq(sc.UIEff, uc.coq()), tab,
 			ros[i].coq(), c.Bool(tokHit[sc.Code]), c.Bool(keys[i] != "" && uiHit[keys[i]]), c.Bool(sc.ErrParam), later, cos[i].coq())
 		js := map[string]interface{}{
 			"provider": cfg.Type, "config": cfg.describe(), "code": sc.Code, "note": sc.Note,
 			"group": map[string]interface{}{"size": k, "member": i, "release_order": order, "note": g.Note,
 				"unexpected_idp_requests_direct": unexpected, "unexpected_idp_requests_callback": unexpected2},
-			"token_answer":    map[string]interface{}{"transport": sc.Tok.Transport, "status": sc.Tok.Status, "body": fmt.Sprintf("%q", sc.Tok.Raw), "class": tc},
-			"userinfo_answer": map[string]interface{}{"for_access_token": keys[i], "transport": sc.UI.Transport, "status": sc.UI.Status, "body": fmt.Sprintf("%q", sc.UI.Raw), "class": uc},
+			"token_answer":    answerJSON(sc.Tok, sc.TokEff, tc),
+			"userinfo_answer": answerJSON(sc.UI, sc.UIEff, uc),
+			"userinfo_held_for_access_token": keys[i],
 			"payload_oracle":  tabJS,
 			"redeem":          ros[i], "token_called": tokHit[sc.Code], "userinfo_called": keys[i] != "" && uiHit[keys[i]],
 			"callback": map[string]interface{}{"error_param": sc.ErrParam, "later_gate": sc.Later, "obs": cos[i]},
@@ -636,6 +789,11 @@ func (w *world) run(g group) []c.Case {
 		out = append(out, c.Case{Coq: coq, JSON: js})
 	}
 	return out
+}
+
+func answerJSON(a answerSpec, e effective, class interface{}) map[string]interface{} {
+	return map[string]interface{}{"transport": a.Transport, "status": a.Status, "body": fmt.Sprintf("%q", a.Raw), "headers": a.Headers,
+		"wire": wireName[a.Wire], "as_read_by_a_stock_client": map[string]interface{}{"failed": e.Failed, "status": e.Status, "detail": e.Detail}, "class": class}
 }
 
 func sameTok(a, b tokClass) bool {
